@@ -151,6 +151,46 @@ def make_replayer(module, func, params, spec_py, defaults=None, rtol=1e-9, py_fu
     return rp
 
 
+_ELEMENTWISE_CODE = r'''
+import importlib, itertools
+import numpy as np
+cfg = args
+f = getattr(importlib.import_module(cfg["module"]), cfg["func"])
+base, arrays = cfg["base"], cfg["arrays"]
+n = len(next(iter(arrays.values())))
+def flat(v):
+    return list(v) if isinstance(v, tuple) else [v]
+got = flat(f(**dict(base, **{k: np.asarray(v, dtype=float) for k, v in arrays.items()})))
+worst, where = 0.0, None
+for k in range(n):
+    ref = flat(f(**dict(base, **{kk: float(v[k]) for kk, v in arrays.items()})))
+    for o, (g_, r_) in enumerate(zip(got, ref)):
+        g_ = np.asarray(g_)
+        gk = complex(g_.ravel()[k]) if g_.size == n else complex(g_.ravel()[0])
+        r_ = complex(np.asarray(r_).ravel()[0])
+        d = abs(gk - r_) / max(abs(r_), 1e-300) if (gk == gk and r_ == r_) else (0.0 if (gk != gk and r_ != r_) else float("inf"))
+        if d > worst:
+            worst, where = d, [k, o, [gk.real, gk.imag], [r_.real, r_.imag]]
+result = {"worst_relative_difference": worst, "where_element_output_array_scalar": where}
+'''
+
+
+def make_elementwise_replayer(module, func, base, arrays, rtol=1e-10):
+    """native replay for array_is_elementwise obligations: the real function on arrays vs element by element on scalars.
+    base: keyword arguments kept scalar; arrays: {parameter: list of values} (same length, edge values included)."""
+    from . import native
+
+    def rp(ob, res):
+        out = native.run(dict(code=_ELEMENTWISE_CODE, args=dict(module=module, func=func, base=base, arrays=arrays)), timeout=900)
+        rec = dict(replayed=True, module=module, func=func, base=base, arrays=arrays, native=out)
+        try:
+            rec["confirmed"] = bool(out["result"]["worst_relative_difference"] > rtol)
+        except Exception:
+            rec["confirmed"] = "exception" in out or "crash" in out
+        return rec
+    return rp
+
+
 # ---------------------------------------------------------------------------------------------
 import ast as _ast
 import copy as _copy
